@@ -91,6 +91,94 @@ def parseEqn (ts : List Tok) : Option (Eqn Expr) :=
     | _ => none
   | _ => none
 
+/-! ## Operator precedence (minimally parenthesised text)
+
+The grammar of the expression language after `^` -> `**` (it is Python's):
+  expr   := term (("+" | "-") term)*            left-associative
+  term   := factor (("*" | "/") factor)*        left-associative
+  factor := "-" factor | power                  unary minus binds tighter than `* /`, looser than `^` on its left
+  power  := primary ("^" factor)?               right-associative; the exponent may carry a unary minus
+  primary:= number | name | f "(" expr ("," expr)? ")" | "(" expr ")"
+-/
+
+inductive PMode
+  | expr | term | factor | power | primary
+  | addRest (acc : Expr) | mulRest (acc : Expr)
+
+/-- precedence parser; the first argument is a step budget (`8 * length + 8` is always enough) -/
+def pp : Nat → PMode → List Tok → Option (Expr × List Tok)
+  | 0, _, _ => none
+  | n + 1, .expr, ts =>
+    match pp n .term ts with
+    | some (a, r) => pp n (.addRest a) r
+    | none => none
+  | n + 1, .addRest acc, .op .add :: r =>
+    match pp n .term r with
+    | some (b, r2) => pp n (.addRest (.bin .add acc b)) r2
+    | none => none
+  | n + 1, .addRest acc, .op .sub :: r =>
+    match pp n .term r with
+    | some (b, r2) => pp n (.addRest (.bin .sub acc b)) r2
+    | none => none
+  | _ + 1, .addRest acc, ts => some (acc, ts)
+  | n + 1, .term, ts =>
+    match pp n .factor ts with
+    | some (a, r) => pp n (.mulRest a) r
+    | none => none
+  | n + 1, .mulRest acc, .op .mul :: r =>
+    match pp n .factor r with
+    | some (b, r2) => pp n (.mulRest (.bin .mul acc b)) r2
+    | none => none
+  | n + 1, .mulRest acc, .op .div :: r =>
+    match pp n .factor r with
+    | some (b, r2) => pp n (.mulRest (.bin .div acc b)) r2
+    | none => none
+  | _ + 1, .mulRest acc, ts => some (acc, ts)
+  | n + 1, .factor, .op .sub :: r =>
+    match pp n .factor r with
+    | some (e, r2) => some (.neg e, r2)
+    | none => none
+  | n + 1, .factor, ts => pp n .power ts
+  | n + 1, .power, ts =>
+    match pp n .primary ts with
+    | some (b, .op .pow :: r2) =>
+      match pp n .factor r2 with
+      | some (e, r3) => some (.bin .pow b e, r3)
+      | none => none
+    | other => other
+  | _ + 1, .primary, .num q :: r => some (.num q, r)
+  | _ + 1, .primary, .name x k :: r => some (.name x k, r)
+  | n + 1, .primary, .fn f :: .lp :: r =>
+    match pp n .expr r with
+    | some (a, .rp :: r2) => some (.call1 f a, r2)
+    | some (a, .comma :: r2) =>
+      match pp n .expr r2 with
+      | some (b, .rp :: r4) => some (.call2 f a b, r4)
+      | _ => none
+    | _ => none
+  | n + 1, .primary, .lp :: r =>
+    match pp n .expr r with
+    | some (e, .rp :: r2) => some (e, r2)
+    | _ => none
+  | _ + 1, .primary, _ => none
+
+def parsePrec (ts : List Tok) : Option Expr :=
+  match pp (8 * ts.length + 8) .expr ts with
+  | some (e, []) => some e
+  | _ => none
+
+def parsePrecEqn (ts : List Tok) : Option (Eqn Expr) :=
+  match pp (8 * ts.length + 8) .expr ts with
+  | some (l, []) => some (.bare l)
+  | some (l, .eq :: r) =>
+    match pp (8 * ts.length + 8) .expr r with
+    | some (rhs, []) => some (.eq l rhs)
+    | _ => none
+  | _ => none
+
+/-- the text of `_postprocess_xtring`: `-(lhs)+rhs` with the right-hand side NOT parenthesised -/
+def translateTokens (lhs rhs : List Tok) : List Tok := .op .sub :: .lp :: (lhs ++ .rp :: .op .add :: rhs)
+
 /-! ## Keyword aliases -/
 
 def isLowerAscii (c : Char) : Bool := 'a' ≤ c && c ≤ 'z'
@@ -206,5 +294,43 @@ def resolveSubstitutions (defs : List (String × List STok)) (eq : List STok) : 
   eq.flatMap (fun t => match t with
     | .ref s => (lookupLast defs s).getD [t]
     | .word _ => [t])
+
+/-! ## `<...>` stringification of numbers (`_stringify`: `str(value)`, iterables joined by `,`)
+
+A decimal text is modelled by its sign, its digits (least significant first) and the number of digits after the point;
+`stringifyDec q k` is the text of a value `q` that has `k` decimals (what `str` prints for integers and for floats given by at
+most 15 significant decimal digits: every digit, no rounding), `rereadDec` is the value the equation compiler reads back. -/
+
+structure DecText where
+  neg : Bool
+  digits : List Nat
+  scale : Nat
+  deriving DecidableEq, Repr, Inhabited
+
+def digits10 (n : Nat) : List Nat :=
+  if h : n < 10 then [n] else (n % 10) :: digits10 (n / 10)
+termination_by n
+decreasing_by omega
+
+def ofDigits10 : List Nat → Nat
+  | [] => 0
+  | d :: r => d + 10 * ofDigits10 r
+
+def stringifyDec (q : Rat) (k : Nat) : DecText :=
+  ⟨decide (q < 0), digits10 (q * (10 : Rat) ^ k).num.natAbs, k⟩
+
+def rereadDec (t : DecText) : Rat :=
+  (if t.neg then -1 else 1) * (ofDigits10 t.digits : Rat) / (10 : Rat) ^ t.scale
+
+/-- the characters: digits most significant first, a point before the last `scale` digits (padded with zeros) -/
+def DecText.render (t : DecText) : String :=
+  let ds := t.digits ++ List.replicate (t.scale + 1 - t.digits.length) 0
+  let cs := ds.reverse.map (fun d => Char.ofNat (48 + d))
+  let ip := cs.take (cs.length - t.scale)
+  let fp := cs.drop (cs.length - t.scale)
+  (if t.neg then "-" else "") ++ String.ofList ip ++ (if t.scale = 0 then "" else "." ++ String.ofList fp)
+
+/-- an iterable is the texts of its elements joined by commas -/
+def stringifyList (qs : List (Rat × Nat)) : List DecText := qs.map (fun p => stringifyDec p.1 p.2)
 
 end IrisVerif.ModelLang
